@@ -304,6 +304,99 @@ struct Engine {
             }
         }
     }
+
+    // (5) what the ar/arp words MEAN to the interpreter: for every opcode whose form names an ar- or arp-selected register, the ar/arp
+    // words are written (as words, through Set) with every offset code in the selected slot and decoy values in the other slots; the
+    // data addresses the instruction then touches on each side must be the selected register's value or that value displaced by the
+    // offset the word holds in the selected slot (0: none, 1: +1, 2/3: -1) - never by the other side's or another slot's offset
+    static u16 Off(u16 p, int code) {
+        return code == 0 ? p : code == 1 ? (u16)(p + 1) : (u16)(p - 1);
+    }
+    u64 offset_accesses = 0;
+    void OffsetMeaning(u16 op, const DecodeInfo& d) {
+        auto T = [&](int i) { return i < d.nargs ? std::string(d.arg_types[i]) : std::string(); };
+        int arp_rn = -1, arp_si = -1, arp_sj = -1, ar_rn = -1, ar_s = -1;
+        for (int i = 0; i < d.nargs; ++i) {
+            std::string t = T(i), t1 = T(i + 1), t2 = T(i + 2);
+            if ((t == "ArpRn1" || t == "ArpRn2") && t1.compare(0, 7, "ArpStep") == 0 && t2.compare(0, 7, "ArpStep") == 0 && arp_rn < 0)
+                arp_rn = d.args[i], arp_si = d.args[i + 1], arp_sj = d.args[i + 2];
+            if ((t == "ArRn1" || t == "ArRn2") && (t1 == "ArStep1" || t1 == "ArStep2" || t1 == "ArStep1Alt") && ar_rn < 0)
+                ar_rn = d.args[i], ar_s = t1 == "ArStep1Alt" ? d.args[i + 1] + 2 : d.args[i + 1];
+        }
+        if (arp_rn < 0 && ar_rn < 0)
+            return;
+        for (int a = 0; a < 4; ++a)
+            for (int b = 0; b < 4; ++b) {
+                if (arp_rn < 0 && b != 0)
+                    continue;
+                VState s = bases[0].second;
+                s.pc = 0x1000, s.sp = 0x0800;
+                for (int k = 0; k < 8; ++k)
+                    s.r[k] = (u16)((k < 4 ? 0x6420 : 0xCC20) + 16 * (k & 3)), s.m[k] = 0, s.br[k] = 0;
+                // the words are composed from the layout table and written through the real Set
+                u16 arw[2], arpw[4];
+                int ar_unit = -1, ui = -1, uj = -1;
+                for (int k = 0; k < 2; ++k) {
+                    // ar_k: [2:0] step(2k+1) [4:3] offset(2k+1) [7:5] step(2k) [9:8] offset(2k) [12:10] rn(2k+1) [15:13] rn(2k)
+                    int o0 = (ar_rn >= 0 && ar_s == 2 * k) ? a : (a + 1 + k) & 3, o1 = (ar_rn >= 0 && ar_s == 2 * k + 1) ? a : (a + 2 + k) & 3;
+                    int rn0 = (2 * k) * 2 % 8, rn1 = ((2 * k + 1) * 2 + 1) % 8; // slots 0..3 -> r0, r3, r4, r7
+                    arw[k] = (u16)((o1 << 3) | (o0 << 8) | (rn1 << 10) | (rn0 << 13));
+                    if (ar_rn == 2 * k)
+                        ar_unit = rn0;
+                    if (ar_rn == 2 * k + 1)
+                        ar_unit = rn1;
+                }
+                for (int k = 0; k < 4; ++k) {
+                    // arp_k: [2:0] stepi [4:3] offseti [7:5] stepj [9:8] offsetj [11:10] rni [14:13] rnj
+                    int oi = (k == arp_si) ? a : (a + 1 + k) & 3, oj = (k == arp_sj) ? b : (b + 2 + k) & 3;
+                    int rni = (k + 1) & 3, rnj = (k + 2) & 3;
+                    arpw[k] = (u16)((oi << 3) | (oj << 8) | (rni << 10) | (rnj << 13));
+                    if (k == arp_rn)
+                        ui = rni, uj = 4 + rnj;
+                }
+                for (int k = 0; k < 2; ++k)
+                    impl.api->pseudo_set(&s, 12 + k, arw[k]);
+                for (int k = 0; k < 4; ++k)
+                    impl.api->pseudo_set(&s, 14 + k, arpw[k]);
+                u16 w[2] = {op, 0x0010};
+                VState out;
+                RunResult rr;
+                impl.api->run(impl.m, &s, w, 2, 1, &out, &rr);
+                ++res.evaluations, ++res.transitions, ++res.traces_validated;
+                if (rr.outcome != OUT_OK)
+                    continue;
+                for (int i = 0; i < rr.n_logged; ++i) {
+                    if (rr.log[i].addr < 0x20000)
+                        continue;
+                    u16 ad = (u16)(rr.log[i].addr - 0x20000);
+                    // which register's neighbourhood is it in?
+                    for (int k = 0; k < 8; ++k) {
+                        u16 p = s.r[k];
+                        if ((u16)(ad - p + 2) > 4)
+                            continue;
+                        ++offset_accesses;
+                        int want = -1;
+                        if (arp_rn >= 0 && k == ui)
+                            want = a;
+                        else if (arp_rn >= 0 && k == uj)
+                            want = b;
+                        else if (ar_rn >= 0 && k == ar_unit)
+                            want = a;
+                        else
+                            continue; // a register the form names directly (Rn operand): not this layer's business
+                        if (ad != p && ad != Off(p, want)) {
+                            Fail(Fmt("meaning:offset:%s:%s", d.name, k == uj && arp_rn >= 0 ? "j-side" : arp_rn >= 0 ? "i-side" : "ar"),
+                                 Fmt("opcode %04X (%s) with ar0/1=%04X,%04X arp0..3=%04X,%04X,%04X,%04X: the selected register r%d=%04X has offset code %d in its slot of the "
+                                     "word, but the instruction touches %04X (expected %04X or %04X)", op, d.name, arw[0], arw[1], arpw[0], arpw[1], arpw[2], arpw[3], k, p, want, ad,
+                                     p, Off(p, want)),
+                                 Fmt("c20 off %u %d %d", op, a, b));
+                            return;
+                        }
+                        digests.insert(Mix(op * 16 + a * 4 + b) ^ ad);
+                    }
+                }
+            }
+    }
 };
 
 inline int RunReplay(const std::string& r, Result& res) {
@@ -311,6 +404,19 @@ inline int RunReplay(const std::string& r, Result& res) {
     int which, n = 0;
     unsigned v;
     char kind[8];
+    {
+        unsigned op;
+        int a, b;
+        if (std::sscanf(r.c_str(), "c20 off %u %d %d", &op, &a, &b) == 3) {
+            Engine e(res);
+            DecodeInfo d;
+            e.impl.api->decode((u16)op, &d);
+            e.OffsetMeaning((u16)op, d);
+            for (auto& x : res.violations)
+                quiet.Say(Fmt("  %s\n    %s\n", x.key.c_str(), x.text.c_str()));
+            return res.violations.empty() ? 0 : 1;
+        }
+    }
     if (std::sscanf(r.c_str(), "c20 %7s %d %u %n", kind, &which, &v, &n) != 3)
         return 2;
     VState s;
@@ -409,6 +515,14 @@ inline void Run(const Args& args, Result& res) {
                         for (int depth : {0, 1, 2, 4})
                             for (u32 v = 0; v < 256; ++v)
                                 e.IcrCase(states[si].second, depth, (u16)(v | ((v * 0x0301) & 0xFF00)), states[si].first);
+                // (5) the interpreter's reading of the offset fields, every opcode
+                for (u32 op = idx; op < 0x10000; op += cnt) {
+                    DecodeInfo d;
+                    e.impl.api->decode((u16)op, &d);
+                    if (d.rows_matching == 1)
+                        e.OffsetMeaning((u16)op, d);
+                }
+                blk.counters[3] = e.offset_accesses;
                 blk.evaluations = local.evaluations;
                 blk.transitions = local.transitions;
                 blk.traces = local.traces_validated;
@@ -421,7 +535,10 @@ inline void Run(const Args& args, Result& res) {
                "written, RO bits kept, lp write-1-to-clear, st0.L sets both limit flags, 4-bit accumulator extension sign-extended) on every field, "
                "every word then reads what the layout says (aliases), st0.L = stt0.LM|VL; depth-2 writes of every pair of words that share a field "
                "over 256x256 values; mov ##imm/push/pop instruction paths for 64 values x 8 states; icr's own instructions (mov #imm5 for all 32 "
-               "immediates, mov r0,icr, mov icr,a0) at loop depths 0,1,2,4";
+               "immediates, mov r0,icr, mov icr,a0) at loop depths 0,1,2,4; for every opcode whose form selects a register through ar/arp: all 4 (x4) offset "
+               "codes written into the selected slot of the words with decoys elsewhere - the addresses the instruction touches next to the selected "
+               "register are that register's value or its value displaced by exactly that slot's offset (the interpreter's reading of the word; steps and "
+               "register selection are C10's generic layer)";
     res.bound = "19 words x 65536 values x 9 states; full state alphabet x 8 values; aliased pairs x 65536 value pairs";
     res.assumptions = {"the layout table in engines/isa/c20_words.h is transcribed from the TeakLite/Teak register layouts (and matches the flag legends of test_verifier)",
                        "agreement of the annotated disassembler with the ar/arp layout is checked by the text engine (C05/C02); the generator's reading by C01 clause 2"};
